@@ -6,6 +6,7 @@ import (
 	"fmt"
 	"log/slog"
 	"runtime/debug"
+	"sync/atomic"
 	"time"
 
 	"github.com/goblimey/go-ntrip/rtcm/handler"
@@ -21,7 +22,11 @@ type Result struct {
 	AfterDone int // messages received after close (impossible in Go, kept for symmetry)
 }
 
-// Options control channel capacities, pacing and limits.
+// Options control channel capacities, pacing and limits.  Timeout is a
+// no-progress limit: the run is declared hung when for that long the handler
+// neither took a byte from the input nor delivered a message nor returned
+// (a wall-clock limit on the whole run would misfire on a megabyte stream
+// under the race detector on a loaded machine).
 type Options struct {
 	InCap, OutCap int
 	Timeout       time.Duration
@@ -42,6 +47,7 @@ func Run(h *handler.Handler, input []byte, opt Options) Result {
 	out := make(chan handler.Message, opt.OutCap)
 	stop := make(chan struct{})
 	done := make(chan string, 1)
+	var progress int64
 	go func() {
 		defer func() {
 			if p := recover(); p != nil {
@@ -64,19 +70,22 @@ func Run(h *handler.Handler, input []byte, opt Options) Result {
 			}
 			select {
 			case in <- b:
+				atomic.AddInt64(&progress, 1)
 			case <-stop:
 				return
 			}
 		}
 	}()
 	var res Result
-	timer := time.NewTimer(opt.Timeout)
-	defer timer.Stop()
+	tick := time.NewTicker(opt.Timeout / 8)
+	defer tick.Stop()
+	lastSeen, lastChange := int64(-1), time.Now()
 	defer close(stop)
 	finished := false
 	for !res.Closed {
 		if opt.ConsumerPause != nil {
 			opt.ConsumerPause(len(res.Msgs))
+			lastChange = time.Now() // the consumer's own pause is not the handler's silence
 		}
 		select {
 		case m, ok := <-out:
@@ -85,6 +94,7 @@ func Run(h *handler.Handler, input []byte, opt Options) Result {
 				break
 			}
 			res.Msgs = append(res.Msgs, m)
+			atomic.AddInt64(&progress, 1)
 		case p := <-done:
 			finished = true
 			res.Returned = true
@@ -106,9 +116,13 @@ func Run(h *handler.Handler, input []byte, opt Options) Result {
 				}
 				return res // returned without closing
 			}
-		case <-timer.C:
-			res.TimedOut = true
-			return res
+		case <-tick.C:
+			if v := atomic.LoadInt64(&progress); v != lastSeen {
+				lastSeen, lastChange = v, time.Now()
+			} else if time.Since(lastChange) >= opt.Timeout {
+				res.TimedOut = true
+				return res
+			}
 		}
 	}
 	if !finished {
